@@ -78,13 +78,22 @@ type participant struct {
 	f      func(cs Case) outcome
 }
 
-func collect(mode string) (args []any, get func() []any) {
+// collect: with copyNow a document is copied when the callback gets it (a parser with Reuse
+// recycles its maps for the next document, so a callback has to be done with a document when it
+// returns; a channel turns Reuse off, what comes through it stays valid)
+func collect(mode string, copyNow bool) (args []any, get func() []any) {
 	var docs []any
+	keep := func(v any) any {
+		if copyNow {
+			return canon.Copy(v)
+		}
+		return v
+	}
 	switch mode {
 	case "cb":
-		return []any{func(v any) { docs = append(docs, v) }}, func() []any { return docs }
+		return []any{func(v any) { docs = append(docs, keep(v)) }}, func() []any { return docs }
 	case "cbbool":
-		return []any{func(v any) bool { docs = append(docs, v); return false }}, func() []any { return docs }
+		return []any{func(v any) bool { docs = append(docs, keep(v)); return false }}, func() []any { return docs }
 	case "chan":
 		ch := make(chan any, 1<<16)
 		return []any{ch}, func() []any {
@@ -98,9 +107,12 @@ func collect(mode string) (args []any, get func() []any) {
 	return nil, nil
 }
 
-func collectGen(mode string) (args []any, get func() []any) {
+func collectGen(mode string, copyNow bool) (args []any, get func() []any) {
 	var docs []any
 	add := func(n gen.Node) {
+		if copyNow && n != nil {
+			n = n.Dup()
+		}
 		docs = append(docs, n)
 		if n != nil {
 			docs = append(docs, n.Simplify()) // the simplified form must agree as well
@@ -133,13 +145,13 @@ func single(v any, err error) outcome {
 	return outcome{docs: []string{canon.String(v, canon.Value)}, raw: []any{v}}
 }
 
-func ojParse(reader bool) func(cs Case) outcome {
+func ojParse(reader, reuse bool) func(cs Case) outcome {
 	return func(cs Case) outcome {
-		p := &oj.Parser{}
-		if cs.Veteran {
+		p := &oj.Parser{Reuse: reuse}
+		if cs.Veteran && !reuse {
 			p = vet.OjParser()
 		}
-		args, get := collect(cs.Mode)
+		args, get := collect(cs.Mode, reuse && cs.Mode != "chan")
 		var v any
 		var err error
 		if reader {
@@ -155,13 +167,13 @@ func ojParse(reader bool) func(cs Case) outcome {
 	}
 }
 
-func senParse(reader bool) func(cs Case) outcome {
+func senParse(reader, reuse bool) func(cs Case) outcome {
 	return func(cs Case) outcome {
-		p := &sen.Parser{}
-		if cs.Veteran {
+		p := &sen.Parser{Reuse: reuse}
+		if cs.Veteran && !reuse {
 			p = vet.SenParser()
 		}
-		args, get := collect(cs.Mode)
+		args, get := collect(cs.Mode, reuse && cs.Mode != "chan")
 		var v any
 		var err error
 		if reader {
@@ -177,13 +189,13 @@ func senParse(reader bool) func(cs Case) outcome {
 	}
 }
 
-func genParse(reader bool) func(cs Case) outcome {
+func genParse(reader, reuse bool) func(cs Case) outcome {
 	return func(cs Case) outcome {
-		p := &gen.Parser{}
-		if cs.Veteran {
+		p := &gen.Parser{Reuse: reuse}
+		if cs.Veteran && !reuse {
 			p = vet.GenParser()
 		}
-		args, get := collectGen(cs.Mode)
+		args, get := collectGen(cs.Mode, reuse && cs.Mode != "chan")
 		var v gen.Node
 		var err error
 		if reader {
@@ -298,12 +310,17 @@ func tokenize(kind string, reader bool) func(cs Case) outcome {
 }
 
 var jsonParts = []participant{
-	{"oj.Parser.Parse", false, false, ojParse(false)},
-	{"oj.Parser.ParseReader", true, false, ojParse(true)},
+	{"oj.Parser.Parse", false, false, ojParse(false, false)},
+	{"oj.Parser.ParseReader", true, false, ojParse(true, false)},
+	// parsers that recycle their maps: a callback copies what it gets, a channel needs no copy
+	{"oj.Parser{Reuse}.Parse", false, false, ojParse(false, true)},
+	{"oj.Parser{Reuse}.ParseReader", true, false, ojParse(true, true)},
+	{"gen.Parser{Reuse}.Parse", false, false, genParse(false, true)},
+	{"gen.Parser{Reuse}.ParseReader", true, false, genParse(true, true)},
 	{"oj.Tokenizer.Parse+Builder", false, false, tokenize("oj", false)},
 	{"oj.Tokenizer.Load+Builder", true, false, tokenize("oj", true)},
-	{"gen.Parser.Parse", false, false, genParse(false)},
-	{"gen.Parser.ParseReader", true, false, genParse(true)},
+	{"gen.Parser.Parse", false, false, genParse(false, false)},
+	{"gen.Parser.ParseReader", true, false, genParse(true, false)},
 	{"oj.Validator.Validate", false, true, func(cs Case) outcome {
 		v := oj.Validator{OnlyOne: cs.Mode == "single"}
 		return outcome{err: v.Validate(cs.Input)}
@@ -315,8 +332,10 @@ var jsonParts = []participant{
 }
 
 var senParts = []participant{
-	{"sen.Parser.Parse", false, false, senParse(false)},
-	{"sen.Parser.ParseReader", true, false, senParse(true)},
+	{"sen.Parser.Parse", false, false, senParse(false, false)},
+	{"sen.Parser.ParseReader", true, false, senParse(true, false)},
+	{"sen.Parser{Reuse}.Parse", false, false, senParse(false, true)},
+	{"sen.Parser{Reuse}.ParseReader", true, false, senParse(true, true)},
 	{"sen.Tokenizer.Parse+Builder", false, false, tokenize("sen", false)},
 	{"sen.Tokenizer.Load+Builder", true, false, tokenize("sen", true)},
 }
